@@ -85,6 +85,8 @@ impl TcpConnector for TcpForwarder {
                 let resolved = tokio::net::lookup_host(format!("{}:{}", peer.0, peer.1))
                     .await
                     .map_err(io_to_connection_error)?;
+                #[cfg(trusttunnel_verif)]
+                let resolved = crate::verif::net::override_resolved(&id, &peer, resolved);
 
                 enum SelectionStatus {
                     Loopback,
@@ -129,6 +131,8 @@ impl TcpConnector for TcpForwarder {
                     }
                     Some(SelectionStatus::Suitable(x)) => {
                         log_id!(trace, id, "Selected address: {}", x);
+                        #[cfg(trusttunnel_verif)]
+                        crate::verif_emit!("Selected", "\"id\":\"{}\",\"addr\":\"{}\"", id, x);
                         x
                     }
                 }
@@ -136,6 +140,8 @@ impl TcpConnector for TcpForwarder {
         };
 
         log_id!(trace, id, "Connecting to peer: {}", peer);
+        #[cfg(trusttunnel_verif)]
+        crate::verif_emit!("ConnectAttempt", "\"id\":\"{}\",\"addr\":\"{}\"", id, peer);
         let metrics_guard = self.context.metrics.clone().outbound_tcp_socket_counter();
         TcpStream::connect(peer)
             .await
